@@ -118,12 +118,23 @@ def run(ctx):
         inp = {"builds": [{"keys": b["keys"], "m": b["m"], "script": b["script"]} for b in B], "scripts": [p["script"] for p in P],
                "fuzz": 200000 if ctx.thorough else 30000}
         for kt in (KT17_FAST, KT17_MIX):
-            inp["ktypes"] = kt
-            res = sc.go_rows(ctx, binary, "TestVerifSigScript", inp, "c23-" + kt[0] + kt[-1])
+            # all rows with P-256 keys; with the mix of key types (slow curves) all builds, every script that the model
+            # accepts or that came from a build, and a seeded sample of the other raw scripts (thorough: everything)
+            if kt is KT17_MIX and not ctx.thorough:
+                keep = [i for i, p in enumerate(P) if p["ok"] or p["origin"] != "raw"]
+                rest = [i for i, p in enumerate(P) if not (p["ok"] or p["origin"] != "raw")]
+                keep = sorted(keep[:6000] + ctx.rng.sample(rest, min(3000, len(rest))))
+                Ps = [P[i] for i in keep]
+            else:
+                Ps = P
+            run_inp = dict(inp, ktypes=kt, scripts=[p["script"] for p in Ps])
+            if kt is KT17_MIX and not ctx.thorough:
+                run_inp["fuzz"] = 8000
+            res = sc.go_rows(ctx, binary, "TestVerifSigScript", run_inp, "c23-" + kt[0] + kt[-1])
             if res is None:
                 continue
-            nfuzz += check(ctx, B, P, res[1:-1], kt)
-            nexec += len(B) + len(P)
+            nfuzz += check(ctx, B, Ps, res[1:-1], kt)
+            nexec += len(B) + len(Ps)
         ctx.samples.append({"build": B[len(B) // 2]["keys"], "m": B[len(B) // 2]["m"], "model_builds": B[len(B) // 2]["built"]})
         mp = [p for p in P if p["origin"] == "mutated"]
         if mp:
